@@ -36,7 +36,7 @@ type seqCase struct {
 	Warm []byte `json:"warm,omitempty"`
 }
 
-var classNames = []string{"valid", "short", "long", "other-serial", "serial-0", "wrong-code", "wrong-id", "id-0x19", "malformed", "malformed-strict", "two-faults"}
+var classNames = []string{"valid", "short", "long", "other-serial", "serial-0", "wrong-code", "wrong-id", "id-0x19", "malformed", "malformed-strict", "two-faults", "foreign"}
 
 // classify is the oracle's own view of a datagram (independent of how it was generated).
 func classify(d []byte, c spec.Call) string {
@@ -358,7 +358,7 @@ func mkDatagram(t *rapid.T, class string, c spec.Call) []byte {
 	case "short":
 		d = d[:rapid.IntRange(0, 63).Draw(t, "len")]
 	case "long":
-		n := rapid.SampledFrom([]int{65, 66, 128, 1023, 1024}).Draw(t, "len")
+		n := rapid.SampledFrom([]int{65, 66, 128, 1023, 1024, 1025, 2047, 2048, 2049, 3000, 8192}).Draw(t, "len")
 		d = append(d, make([]byte, n-64)...)
 	case "other-serial":
 		s := c.Serial ^ (1 << rapid.IntRange(0, 31).Draw(t, "bit"))
@@ -379,6 +379,32 @@ func mkDatagram(t *rapid.T, class string, c spec.Call) []byte {
 		d[0] = 0x19
 		if l.Code == 0x20 {
 			d[1] = 0x21 // for the status function 0x19 is legitimate: make it a 0x19 datagram of another function
+		}
+	case "foreign":
+		// not S's and not even the protocol: 64 bytes with another serial number AND a foreign first byte / function code, or 64
+		// bytes of text (what other applications broadcast on the network) - ignorable on the broadcast path like any other
+		// datagram that is not S's
+		switch rapid.IntRange(0, 2).Draw(t, "foreign.kind") {
+		case 0:
+			s := c.Serial ^ (1 << rapid.IntRange(0, 31).Draw(t, "bit"))
+			if s == 0 {
+				s = c.Serial + 1
+			}
+			spec.PutLE32(d[4:], s)
+			d[0] = rapid.SampledFrom([]byte{0x18, 0x16, 0x00, 0xff, 0x4e}).Draw(t, "foreign.id")
+		case 1:
+			copy(d, []byte("NOTIFY * HTTP/1.1\r\nHOST: 239.255.255.250:1900\r\nCACHE-CONTROL: max-age"))
+			if spec.LE32(d[4:]) == c.Serial {
+				d[4] ^= 0x01
+			}
+		default:
+			s := c.Serial ^ (1 << rapid.IntRange(0, 31).Draw(t, "bit"))
+			if s == 0 {
+				s = c.Serial + 1
+			}
+			spec.PutLE32(d[4:], s)
+			d[1] = byte(rapid.IntRange(0, 255).Draw(t, "foreign.code"))
+			d[0] = rapid.SampledFrom([]byte{0x19, 0x17, 0x18}).Draw(t, "foreign.id2")
 		}
 	case "two-faults":
 		// two deviations in the header at once - in particular S's serial number under a foreign but well-known header: a
@@ -469,7 +495,8 @@ func genSeq(layer string, maxLen int) func(t *rapid.T) seqCase {
 				i++
 			}
 			via := false
-			if layer == "socket" && c.Path == 0 && (cl == "short" || cl == "long" || cl == "other-serial" || cl == "serial-0") {
+			if layer == "socket" && c.Path == 0 {
+				// on the broadcast path a datagram counts for what it carries, whichever socket it comes from
 				via = rapid.IntRange(0, 2).Draw(t, "via") == 0
 			}
 			c.Via = append(c.Via, via)
